@@ -552,9 +552,17 @@ def size_source_rule(repo: Repo, rep: Report, rid: str) -> None:
     size_ret = [x for x in g.nodes if x.kind == "stmt" and isinstance(x.ast, ast.Return) and norm(x.ast.value) == "cls.size"]
     none_guard = [x for x in g.nodes if x.kind == "if" and norm(x.ast.test) in ("cls.size is None", "cls.dynamic") and
                   any(isinstance(s, ast.Raise) for s in x.ast.body)]
-    rep.check(bool(size_ret) and vals <= {"cls.size", "0"} and bool(none_guard) and all(g.must_pass(g.entry.id, r.id, {none_guard[0].id}) for r in size_ret),
-              rid, f"{fi.key}:return", "returns cls.size after raising for dynamic types",
-              f"len(T) no longer returns cls.size behind a dynamic-size guard (returns {sorted(vals)})", fi.loc())
+    from ..folds import fold_len
+
+    lf = fold_len(repo)
+    if lf is not None:
+        bad = lf["bad"]
+        rep.check(not bad, rid, f"{fi.key}:return", "folded: the size for fixed-size types (0 included), TypeError for dynamic ones",
+                  f"len(T) for a type with {bad[0][0] if bad else ''} gives {bad[0][1] if bad else ''}, expected {bad[0][2] if bad else ''}", fi.loc())
+    else:
+        rep.check(bool(size_ret) and vals <= {"cls.size", "0"} and bool(none_guard) and all(g.must_pass(g.entry.id, r.id, {none_guard[0].id}) for r in size_ret),
+                  rid, f"{fi.key}:return", "returns cls.size after raising for dynamic types",
+                  f"len(T) no longer returns cls.size behind a dynamic-size guard (returns {sorted(vals)})", fi.loc())
     for fam in ("Enum", "Flag"):
         f = repo.lookup_method(fam, "__len__")
         # instance __len__ of IntEnum does not exist; the class-level len(T) goes through the metaclass
